@@ -60,3 +60,9 @@ claim("C19",
       "Decides that nothing derived from the queried host name can reach the message sent to the lookup service except through SHA-256 and a constant-bounded 2-byte prefix slice (plus constants and the configured suffix), that the cache is keyed by the same 2-byte prefixes, that the verdict compares complete 32-byte hashes, that the hash lists written to the cache are exactly the hex-decoded TXT strings of the current response (never filtered, never carried over from an old entry), and that an expired entry cannot decide. "
       "Label enumeration (four labels, ICANN suffix), malformed TXT handling and cache transparency over arbitrary lookup histories are not decided.",
       "DESIGN.md §5 C19")
+
+claim("C18",
+      "typed-AST key/selector agreement, comparison-operator shape and CFG path guards on SSA, who-may-write enumeration, provenance of the tested offset (static analysis)",
+      "Decides that a day range enters a schedule only after validation of that same range (range checks plus whole minutes), that nobody else writes a schedule, that weekday X is (de)serialised from/to field X with start/end not swapped and identical JSON/YAML keys, that blocked-service rules are applied only on the not-paused edge of Schedule.Contains(time.Now()), that the range test is the half-open start <= x < end, that the validator accepts a non-zero range only after each of its five comparisons, and that Contains takes weekday and wall-clock offset (Clock, not elapsed time) from the instant converted to the schedule's zone. "
+      "The value-level equality of Contains with wall-clock containment for all instants and zones, and round-trip equality of serialised schedules, are not decided.",
+      "DESIGN.md §5 C18")
